@@ -40,6 +40,14 @@ def build(tier, ctx):
             for v in pvcommon.name_order_variants(d):
                 tasks.append({"name": nm, "defn": dsl.to_list(v), "k": 2,
                               "pres": ["canonical"], "mode": "c02"})
+    # ... and the loop-free bunched forks of the exact class (a branch that
+    # is itself a fork: AND under OR is recovered by the weighted cover)
+    from .. import fragment
+    for d in fragment.F_bunched_new(5):
+        if "loop" not in dsl.constructs(d) and pvcommon.bunched_exact_class(d):
+            for v in [d] + pvcommon.name_order_variants(d):
+                tasks.append({"name": "FB", "defn": dsl.to_list(v), "k": 2,
+                              "pres": ["canonical"], "mode": "c02"})
     return tasks
 
 
